@@ -15,7 +15,9 @@ Lemma gen_facts :
   wt_buffer_first = true /\ wt_memo_reset = true /\ wt_memo_min = 1 /\
   wt_second_varint_types = [wt_st_push; WT_UNI_TYPE] /\
   wt_into_inner_keeps_buffer = true /\ wt_gate = 1 /\
-  wt_fallthrough_is_noop = true /\ wt_end_of_stream_removes = true /\ wt_session_from_connect_stream = true.
+  wt_fallthrough_is_noop = true /\ wt_end_of_stream_removes = true /\ wt_session_from_connect_stream = true /\
+  wt_fut_guard = 1 /\ wt_tokio_guard = 1 /\ wt_fut_take_capacity = true /\ wt_tokio_take_capacity = true /\
+  wt_split_buf_to_recv = true.
 Proof. repeat split; reflexivity. Qed.
 
 (* ------------------------------------------------------------------ T1: the session id is the CONNECT stream id *)
@@ -491,7 +493,7 @@ Qed.
 
 Definition sview (s : brs) (q : list ev) : bytes := concat (r_buf s) ++ ev_bytes q.
 Definition sgood (s : brs) (q : list ev) : Prop := nonempty (r_buf s) /\ q_ok q.
-Definition mode_ok (m : rmode) : Prop := match m with ModeData => True | ModeRead l => 1 <= l end.
+Definition mode_ok (m : rmode) : Prop := match m with ModeData => True | ModeRead l => 1 <= l | ModeTokio l => 1 <= l end.
 Definition ending_of (e : ev) : ending := match e with Reset c => EReset c | _ => EFin end.
 
 Lemma q_no_bytes q : q_ok q -> ev_bytes q = [] -> q = [] \/ q = [Fin] \/ exists c, q = [Reset c].
@@ -521,6 +523,25 @@ Qed.
 
 Ltac bst := cbn [r_buf r_eos brs_set_buf brs_set_eos ev_bytes q_term q_ok concat app] in *.
 
+Lemma brs_async_read_unfold l q s :
+  brs_async_read l q s =
+    if 0 <? bl_remaining (r_buf s) then brs_take l q s
+    else match brs_poll_read q s with
+         | (RdPending, q', s') => (RPending, q', s')
+         | (RdEos, q', s') => (REnd, q', s')
+         | (RdReset c, q', s') => (RReset c, q', s')
+         | (RdPanic p, q', s') => (RPanic p, q', s')
+         | (RdData, q', s') => brs_take l q' s'
+         end.
+Proof. reflexivity. Qed.
+
+(* the tokio AsyncRead body is the futures one (same guard, same capacity argument) *)
+Lemma brs_tokio_is_async l q s : brs_tokio_read l q s = brs_async_read l q s.
+Proof. reflexivity. Qed.
+
+Lemma read_call_tokio l q s : read_call (ModeTokio l) q s = read_call (ModeRead l) q s.
+Proof. reflexivity. Qed.
+
 Ltac rw_take Ht bb bufs' :=
   match goal with |- context [bl_take_chunk ?a ?b] =>
     replace (bl_take_chunk a b) with (Some bb, bufs') by (symmetry; exact Ht) end.
@@ -538,17 +559,21 @@ Lemma read_call_spec m q s : sgood s q -> mode_ok m ->
                       sgood s' q' /\ q_term q' = q_term q
   end.
 Proof.
-  intros [Hne Hq] Hm. unfold sview, sgood.
+  intros [Hne Hq] Hm0.
+  assert (E : exists m', match m' with ModeTokio _ => False | _ => True end /\ mode_ok m' /\ read_call m q s = read_call m' q s).
+  { destruct m as [|l|l]; [exists ModeData|exists (ModeRead l)|exists (ModeRead l)]; repeat split; auto. }
+  destruct E as (m' & Hnt & Hm & ->). clear Hm0 m. rename m' into m.
+  unfold sview, sgood.
   destruct (r_buf s) as [|c rest] eqn:Hb.
   - (* empty buffer: the transport is asked *)
     destruct q as [|[b| |c] q']; bst.
-    + destruct m as [|l]; cbn [read_call]; unfold brs_poll_data, brs_async_read, brs_poll_read, bl_remaining;
+    + destruct m as [|l|l]; try contradiction; cbn [read_call]; rewrite ?brs_async_read_unfold; unfold brs_poll_data, brs_poll_read, bl_remaining;
         rewrite Hb; bst; eexists; split; try reflexivity; exact Hb.
     + destruct Hq as [Hbne Hq']. destruct b as [|x b']; [congruence|]. cbn [app].
-      destruct m as [|l]; cbn [read_call mode_ok] in *.
+      destruct m as [|l|l]; try contradiction; cbn [read_call mode_ok] in *.
       * unfold brs_poll_data. rewrite Hb. exists (x :: b'), q', s. rewrite Hb. bst.
         repeat split; auto; discriminate.
-      * unfold brs_async_read, brs_poll_read, bl_remaining. rewrite Hb. bst.
+      * rewrite brs_async_read_unfold. unfold brs_poll_read, bl_remaining. rewrite Hb. bst.
         change (len []) with 0. destruct (N.ltb_spec 0 0) as [|_]; [lia|].
         destruct (N.eqb_spec (len (x :: b')) 0) as [Hz|_]; [rewrite len_cons in Hz; lia|].
         unfold brs_take. bst.
@@ -556,15 +581,15 @@ Proof.
         rw_take Ht bb bufs'. apply len_pos in Hbb as Hlb. destruct (N.eqb_spec (len bb) 0) as [|_]; [lia|].
         exists bb, q', (brs_set_buf (brs_set_buf s [x :: b']) bufs'). bst.
         repeat split; auto. rewrite app_assoc, Hcat. bst. rewrite app_nil_r. reflexivity.
-    + subst q'. destruct m as [|l]; cbn [read_call]; unfold brs_poll_data, brs_async_read, brs_poll_read, bl_remaining;
+    + subst q'. destruct m as [|l|l]; try contradiction; cbn [read_call]; rewrite ?brs_async_read_unfold; unfold brs_poll_data, brs_poll_read, bl_remaining;
         rewrite Hb; bst; eexists _, _; reflexivity.
-    + subst q'. destruct m as [|l]; cbn [read_call]; unfold brs_poll_data, brs_async_read, brs_poll_read, bl_remaining;
+    + subst q'. destruct m as [|l|l]; try contradiction; cbn [read_call]; rewrite ?brs_async_read_unfold; unfold brs_poll_data, brs_poll_read, bl_remaining;
         rewrite Hb; bst; eexists _, _; reflexivity.
   - inversion Hne as [|? ? Hc Hr]; subst. destruct c as [|x c']; [congruence|]. cbn [concat app].
-    destruct m as [|l]; cbn [read_call mode_ok] in *.
+    destruct m as [|l|l]; try contradiction; cbn [read_call mode_ok] in *.
     + unfold brs_poll_data. rewrite Hb. exists (x :: c'), q, (brs_set_buf s rest). bst.
       repeat split; auto; try discriminate. rewrite <- app_assoc. reflexivity.
-    + unfold brs_async_read, bl_remaining. rewrite Hb. cbn [concat].
+    + rewrite brs_async_read_unfold. unfold bl_remaining. rewrite Hb. cbn [concat].
       destruct (N.ltb_spec 0 (len ((x :: c') ++ concat rest))) as [_|H]; [|rewrite len_app, len_cons in H; lia].
       unfold brs_take. rewrite Hb.
       destruct (take_spec l (x :: c') rest Hm ltac:(discriminate) Hr) as (bb & bufs' & Ht & Hbb & Hcat & Hn').
@@ -1234,8 +1259,8 @@ Proof.
   intros m0 Hm0. discriminate.
 Qed.
 
-Lemma binv_chunk m tot st b : binv tot None st -> b <> [] -> wf_bytes b ->
-  binv (tot ++ b) None (bidi_step m st (Arrive (Chunk b))).
+Lemma binv_chunk sp m tot st b : binv tot None st -> b <> [] -> wf_bytes b ->
+  binv (tot ++ b) None (bidi_step sp m st (Arrive (Chunk b))).
 Proof.
   intros [Hwf H] Hb Hwb. split; [apply wf_bytes_app; auto|].
   cbn [bidi_step b_q b_ph b_out]. destruct (b_ph st) as [f|i s|i e|r].
@@ -1257,8 +1282,8 @@ Proof.
     pose proof (wt_parse_extend WT_BIDI_SIGNAL tot b) as Hx. rewrite H in Hx. exact Hx.
 Qed.
 
-Lemma binv_term m tot st t : binv tot None st -> is_term t ->
-  binv tot (Some t) (bidi_step m st (Arrive t)).
+Lemma binv_term sp m tot st t : binv tot None st -> is_term t ->
+  binv tot (Some t) (bidi_step sp m st (Arrive t)).
 Proof.
   intros [Hwf H] Ht. split; [exact Hwf|].
   assert (Hnb : ev_bytes [t] = []) by (destruct t; cbn [ev_bytes]; auto; exfalso; eapply Ht; reflexivity).
@@ -1295,8 +1320,16 @@ Proof.
     + cbn. auto.
 Qed.
 
-Lemma binv_poll m tot term st : mode_ok m -> binv tot term st ->
-  binv tot term (bidi_poll m st) /\ bquiet tot (bidi_poll m st).
+Lemma split_keeps_payload s :
+  r_buf (snd (brs_split s)) = r_buf s /\ r_buf (fst (brs_split s)) = [] /\
+  r_eos (snd (brs_split s)) = r_eos s /\ r_eos (fst (brs_split s)) = r_eos s.
+Proof. repeat split; reflexivity. Qed.
+
+Lemma after_accept_buf sp s : r_buf (after_accept sp s) = r_buf s.
+Proof. destruct sp; reflexivity. Qed.
+
+Lemma binv_poll sp m tot term st : mode_ok m -> binv tot term st ->
+  binv tot term (bidi_poll sp m st) /\ bquiet tot (bidi_poll sp m st).
 Proof.
   intros Hm [Hwf H]. unfold bidi_poll. destruct (b_ph st) as [f|i s|i e|r] eqn:Eph.
   - destruct H as (Hf & Hv & Hterm & Ho). unfold fs_poll_next.
@@ -1305,7 +1338,8 @@ Proof.
     destruct (wt_parse WT_BIDI_SIGNAL tot) as [s p| |t] eqn:Hp.
     + destruct Hl as (q' & f' & -> & Hsv & Hg & Hq'). rewrite Ho.
       apply bidi_read_inv; auto; try congruence.
-      unfold fs_into_inner. cbn [concat app]. rewrite Hsv. exact Hp.
+      * unfold sgood in *. rewrite after_accept_buf. exact Hg.
+      * unfold fs_into_inner, sview in *. rewrite after_accept_buf. cbn [concat app]. rewrite Hsv. exact Hp.
     + rewrite Hterm in Hl. destruct term as [[b| |c]|].
       * exfalso. eapply (q_term_not_chunk (b_q st)); [apply Hf|exact Hterm].
       * destruct Hl as (r & q' & f' & -> & [-> | ->]); (split; [|exact I]); (split; [exact Hwf|]);
@@ -1321,16 +1355,16 @@ Proof.
   - split; [|unfold bquiet; rewrite Eph; exact I]. split; [exact Hwf|]. rewrite Eph. exact H.
 Qed.
 
-Lemma binv_polls m tot term : mode_ok m -> forall h st, only_polls h -> binv tot term st ->
-  binv tot term (fold_left (bidi_step m) h st).
+Lemma binv_polls sp m tot term : mode_ok m -> forall h st, only_polls h -> binv tot term st ->
+  binv tot term (fold_left (bidi_step sp m) h st).
 Proof.
   intros Hm. induction h as [|it r IH]; intros st Hp Hi; [exact Hi|].
   inversion Hp as [|? ? Hit Hr]; subst. cbn [fold_left bidi_step]. apply IH; [exact Hr|].
   apply binv_poll; assumption.
 Qed.
 
-Lemma binv_run m : mode_ok m -> forall h st tot, binv tot None st -> h_ok h ->
-  binv (tot ++ arrived_bytes h) (arrived_term h) (fold_left (bidi_step m) h st).
+Lemma binv_run sp m : mode_ok m -> forall h st tot, binv tot None st -> h_ok h ->
+  binv (tot ++ arrived_bytes h) (arrived_term h) (fold_left (bidi_step sp m) h st).
 Proof.
   intros Hm. induction h as [|[[b| |c]|] r IH]; intros st tot Hi Hh; cbn [fold_left arrived_bytes arrived_term h_ok] in *.
   - rewrite app_nil_r. exact Hi.
@@ -1357,19 +1391,19 @@ Proof.
 Qed.
 
 (* T3 + T5 for bidirectional streams against the flat-bytes specification *)
-Theorem bidi_run_spec : forall m h, mode_ok m -> h_ok h ->
-  let st := bidi_run m (h ++ [Poll]) in
+Theorem bidi_run_spec : forall sp m h, mode_ok m -> h_ok h ->
+  let st := bidi_run sp m (h ++ [Poll]) in
   match wt_expect_bidi (arrived_bytes h) (end_of (arrived_term h)) with
   | ObsStream s p e => bidi_seen st = SeenStream s p e
   | ObsNothing => bidi_seen st = SeenNothing
   | ObsUnconstrained => bidi_seen st = SeenOther
   end.
 Proof.
-  intros m h Hm Hh st.
-  pose proof (binv_run m Hm h bapp_init [] binv_init Hh) as Hi. cbn [app] in Hi.
-  assert (Hst : st = bidi_poll m (fold_left (bidi_step m) h bapp_init)).
+  intros sp m h Hm Hh st.
+  pose proof (binv_run sp m Hm h bapp_init [] binv_init Hh) as Hi. cbn [app] in Hi.
+  assert (Hst : st = bidi_poll sp m (fold_left (bidi_step sp m) h bapp_init)).
   { unfold st, bidi_run. rewrite fold_left_app. reflexivity. }
-  destruct (binv_poll m _ _ _ Hm Hi) as [[Hwf Hinv] Hq]. rewrite <- Hst in Hinv, Hq.
+  destruct (binv_poll sp m _ _ _ Hm Hi) as [[Hwf Hinv] Hq]. rewrite <- Hst in Hinv, Hq.
   set (tot := arrived_bytes h) in *. pose proof (arrived_term_is_term h) as Hit.
   set (term := arrived_term h) in *.
   unfold wt_expect_bidi, bidi_seen, bquiet in *.
@@ -1453,13 +1487,13 @@ Proof.
   rewrite Hb, (parse_any_form _ _ _ _ _ Ht Hs) in H. exact H.
 Qed.
 
-Theorem bidi_bytes_intact : forall m h tl sl s payload, mode_ok m -> h_ok h ->
+Theorem bidi_bytes_intact : forall sp m h tl sl s payload, mode_ok m -> h_ok h ->
   valid_form tl WT_BIDI_SIGNAL -> valid_form sl s ->
   arrived_bytes h = rfc_vi_enc tl WT_BIDI_SIGNAL ++ rfc_vi_enc sl s ++ payload ->
-  bidi_seen (bidi_run m (h ++ [Poll])) = SeenStream s payload (end_of (arrived_term h)).
+  bidi_seen (bidi_run sp m (h ++ [Poll])) = SeenStream s payload (end_of (arrived_term h)).
 Proof.
-  intros m h tl sl s payload Hm Hh Ht Hs Hb.
-  pose proof (bidi_run_spec m h Hm Hh) as H. cbv zeta in H. unfold wt_expect_bidi in H.
+  intros sp m h tl sl s payload Hm Hh Ht Hs Hb.
+  pose proof (bidi_run_spec sp m h Hm Hh) as H. cbv zeta in H. unfold wt_expect_bidi in H.
   rewrite Hb, (parse_any_form _ _ _ _ _ Ht Hs) in H. exact H.
 Qed.
 
@@ -1482,15 +1516,15 @@ Proof.
   - destruct Hi as [_ Hr]. destruct r; auto.
 Qed.
 
-Theorem bidi_prefix_safe : forall m h, mode_ok m -> h_ok h ->
-  match bidi_seen (bidi_run m h) with
+Theorem bidi_prefix_safe : forall sp m h, mode_ok m -> h_ok h ->
+  match bidi_seen (bidi_run sp m h) with
   | SeenStream i d _ => exists rest, wt_parse WT_BIDI_SIGNAL (arrived_bytes h) = WtStream i (d ++ rest)
   | SeenBad => False
   | _ => True
   end.
 Proof.
-  intros m h Hm Hh. pose proof (binv_run m Hm h bapp_init [] binv_init Hh) as [_ Hi]. cbn [app] in Hi.
-  unfold bidi_run, bidi_seen. destruct (b_ph (fold_left (bidi_step m) h bapp_init)) as [f|i s|i e|r]; auto.
+  intros sp m h Hm Hh. pose proof (binv_run sp m Hm h bapp_init [] binv_init Hh) as [_ Hi]. cbn [app] in Hi.
+  unfold bidi_run, bidi_seen. destruct (b_ph (fold_left (bidi_step sp m) h bapp_init)) as [f|i s|i e|r]; auto.
   - destruct Hi as (_ & _ & Hp). eauto.
   - destruct Hi as ((t & Ht & ->) & Hp).
     pose proof (arrived_term_is_term h t Hh Ht) as Hit.
@@ -1521,10 +1555,10 @@ Theorem uni_liveness : forall m h s p, mode_ok m -> h_ok h ->
 Proof.
   intros m h s p Hm Hh Hp. eexists. apply (uni_gate true m h s p Hm Hh Hp). reflexivity.
 Qed.
-Theorem bidi_liveness : forall m h s p, mode_ok m -> h_ok h ->
+Theorem bidi_liveness : forall sp m h s p, mode_ok m -> h_ok h ->
   wt_parse WT_BIDI_SIGNAL (arrived_bytes h) = WtStream s p ->
-  exists e, bidi_seen (bidi_run m (h ++ [Poll])) = SeenStream s p e.
+  exists e, bidi_seen (bidi_run sp m (h ++ [Poll])) = SeenStream s p e.
 Proof.
-  intros m h s p Hm Hh Hp.
-  pose proof (bidi_run_spec m h Hm Hh) as H. cbv zeta in H. unfold wt_expect_bidi in H. rewrite Hp in H. eauto.
+  intros sp m h s p Hm Hh Hp.
+  pose proof (bidi_run_spec sp m h Hm Hh) as H. cbv zeta in H. unfold wt_expect_bidi in H. rewrite Hp in H. eauto.
 Qed.
